@@ -345,3 +345,12 @@ define void @g(i32 %a, i32 %b) {
 @g = global i32 0, !DIFile !0
 !DILocation = !{!0}
 !0 = !{}
+;;; ATOM md/di-flag-integers
+!llvm.module.flags = !{!8}
+!n = !{!0, !1, !2, !4, !5}
+!0 = !DIBasicType(name: "y", flags: 2097152)
+!1 = !DISubprogram(name: "f", spFlags: 1024)
+!2 = !DISubprogram(name: "g", spFlags: 4096)
+!4 = !DIBasicType(name: "z", flags: DIFlagPublic | 2097152 | DIFlagVector)
+!5 = !DISubprogram(name: "h", spFlags: DISPFlagLocalToUnit | 1024 | DISPFlagPure)
+!8 = !{i32 2, !"Debug Info Version", i32 3}
